@@ -85,6 +85,41 @@ Theorem answer_is_the_matching_rows : forall (hash : str -> N) c cond tmin tmax 
 Proof. exact answer_is_filter. Qed.
 Print Assumptions answer_is_the_matching_rows.
 
+(* ------------------------------------------------------------------ write batches, several measurements, key history *)
+(* One ingestion context serves a whole batch and remembers the previous row's shard group, measurement and shard-key
+   definition. If no row is dropped between the measurement lookup and the routing step, remembering the shard key is
+   invisible: every row is mapped exactly as if its own measurement's key were looked up for it. Rows of any number of
+   measurements with any shard keys, in any order and any groups. *)
+Theorem batch_cache_transparent : forall (hash : str -> N) all, consistent all -> no_drop all ->
+  forall rows st, incl rows all -> cache_inv all st -> batch_run hash true st rows = batch_run hash false st rows.
+Proof. exact batch_cache_transparent_proof. Qed.
+Print Assumptions batch_cache_transparent.
+
+Theorem batch_starts_consistent : forall all, cache_inv all b_empty.
+Proof. exact cache_inv_empty. Qed.
+
+(* with the key looked up per row, a batch row is routed as a single row: into the remembered group if its span contains
+   the timestamp, else the catalogue's, by the shard key in force for the row's own measurement and that group *)
+Theorem batch_uncached_is_route : forall (hash : str -> N) st r g s,
+  snd (batch_step hash false st r) = Some (g, s) ->
+  r_kind r = RRoute /\ pick_group (b_sg st) (c_groups (m_cfg (r_m r))) (p_time (r_p r)) = Some g /\
+  sk_scan (m_vers (r_m r)) (g_id g) <> None /\ route_in hash (cfg_at (r_m r) (g_id g)) g (r_p r) = Some s.
+Proof. exact batch_uncached_is_route_proof. Qed.
+
+(* ... and pruning with the key in force for the row's group (per-group key in mapMstShards) finds it *)
+Theorem batch_prune_sound : forall (hash : str -> N) st r g s cond,
+  wf_group (m_cfg (r_m r)) g -> wf_point (r_p r) ->
+  snd (batch_step hash false st r) = Some (g, s) -> eval_cond (m_cfg (r_m r)) cond (r_p r) = true ->
+  In s (target_group hash repaired (cfg_at (r_m r) (g_id g)) g cond) /\
+  (forall tmin tmax, In g (query_groups (m_cfg (r_m r)) tmin tmax) ->
+                     In (g_id g, s_id s) (target_m hash repaired true (r_m r) tmin tmax cond)).
+Proof.
+  intros hash st r g s cond Hwf Hwp H Hev.
+  pose proof (batch_prune_sound_proof hash repaired st r g s cond eq_refl eq_refl (or_introl eq_refl) Hwf Hwp H Hev) as Hs.
+  split; [exact Hs|]. intros tmin tmax Hq. apply target_m_in; auto.
+Qed.
+Print Assumptions batch_prune_sound.
+
 (* ------------------------------------------------------------------ non-vacuity: the hypotheses are satisfiable *)
 Definition B (l : list N) : str := l.
 Definition s_host : str := [104; 111; 115; 116]%N.
@@ -93,9 +128,9 @@ Definition s_cpu : str := [99; 112; 117; 95; 48; 48; 48; 48]%N.
 Definition mk_shards (n : nat) : list shard := map (fun i => {| s_id := N.of_nat (S i); s_min := []; s_max := [] |}) (seq 0 n).
 Definition ex_group : group :=
   {| g_id := 1%N; g_start := 1699999200000000000; g_end := 1700002800000000000; g_deleted := false; g_trunc := None;
-     g_shards := mk_shards 8; g_alive := seq 0 8; g_mstidx := None |}.
+     g_shards := mk_shards 8; g_alive := seq 0 8 |}.
 Definition ex_cfg : cfg :=
-  {| c_mst := s_cpu; c_tagkeys := [s_dc; s_host]; c_sk := [s_host]; c_typ := Hash; c_dur := 3600000000000; c_groups := [ex_group] |}.
+  {| c_mst := s_cpu; c_tagkeys := [s_dc; s_host]; c_sk := [s_host]; c_typ := Hash; c_dur := 3600000000000; c_groups := [ex_group]; c_mstidx := None |}.
 Definition ex_point (v : N) (other : bool) : point :=
   {| p_tags := [(s_host, [v])]; p_time := 1699999200000000003; p_leaf := fun _ => other |}.
 (* host = 'a' OR usage > 1 *)
@@ -104,7 +139,7 @@ Definition ex_cond : expr := EOr (EEq 0%N s_host [97%N]) (EOther 1%N).
 Example ex_wf : wf_cfg ex_cfg /\ wf_point (ex_point 100 true).
 Proof.
   split.
-  - unfold wf_cfg. simpl. constructor; [|constructor]. simpl. apply incl_refl.
+  - unfold wf_cfg. simpl. constructor; [|constructor]. unfold wf_group. simpl. apply incl_refl.
   - unfold wf_point. simpl. constructor; [intros []|constructor].
 Qed.
 
